@@ -62,7 +62,7 @@ add("C14", "exploration",
     "i32/u32 streams are exercised through Sample only (the harness's stream ports carry u8,u32,f32,Complex). Durability is page-cache level. Loop-back TCP delivers each small write as one read result.",
     "runtime monitoring: round-trip oracles with harness-controlled read segmentation", "3/C14", "formats")
 add("C16", "exploration",
-    "VectorSource, FileSource, SigMFSource (recording and archive) x data lengths 0,1,cap-1,cap,cap+1 and random up to 3 stream capacities x repeat in {0,1,2,3,infinite} x seeded drain schedules (none, 1, 1..100, all) on 1-2 page streams, so that repetitions are emitted in several pieces. Oracle: output = data repeated exactly r times; the EOF verdict is never returned before everything was emitted and comes within 2 further calls that had output space; an infinite repeat never returns EOF in 3000 calls; VectorSource marker tags (start, repeat=k, first) once per repetition on its first sample. Repeat API: random call sequences of again/done/count on finite(0..4) and infinite against a 10-line model of the documentation, no unwind.",
+    "VectorSource, FileSource, SigMFSource (recording and archive; the builder's repeat/sample_rate/ignore_type_error setters called in six orders) x data lengths 0,1,cap-1,cap,cap+1 and random up to 3 stream capacities x repeat in {0,1,2,3,infinite} x seeded drain schedules (none, 1, 1..100, all) on 1-2 page streams, so that repetitions are emitted in several pieces. Oracle: output = data repeated exactly r times; the EOF verdict is never returned before everything was emitted and comes within 2 further calls that had output space; an infinite repeat never returns EOF in 3000 calls; VectorSource marker tags (start, repeat=k, first) once per repetition on its first sample. Repeat API: random call sequences of again/done/count on finite(0..4) and infinite against a 10-line model of the documentation, no unwind.",
     "For empty data both EOF and silence are accepted for an infinite repeat. Files hold whole samples only.",
     "runtime monitoring: reference-model oracle over source x repeat x drain-schedule cases", "3/C16", "sources")
 add("C19", "exploration",
@@ -70,19 +70,19 @@ add("C19", "exploration",
     "Only arities up to 3x3 and the attribute combinations listed. A macro defect that breaks compilation for some arity makes the whole harness build fail (reported as inconclusive, as happened for 3 inputs before the fix).",
     "runtime monitoring: per-call conservation oracle over hook events for harness-defined derived blocks", "3/C19", "drip-feed")
 add("C15", "exploration",
-    "Every call runs inside catch_unwind and an Again without any stream event is re-called 64 times (spin). Inputs: all 42 catalogue blocks under drip-feed schedules with floats that mix NaN, +-inf, denormals, huge values and random bit patterns; HdlcDeframer (min/max incl. 0,1,2; checksum and fix-bits on/off), RtlSdrDecode and AuDecode with arbitrary bytes; StreamToPdu with arbitrary tag sequences (starts/ends in any order, duplicates, wrong value types); exhaustive AU header mutations (47 data offsets incl. 0..40, 2^31, 2^32-1 x 7 encodings x 4 rates x 4 channel counts, truncations 0..28, one-shot and chunked); SigMF recordings with hostile metadata (type confusion, missing keys, huge/negative numbers, non-JSON) and archives (wrong entry types, duplicate members, non-UTF-8 names, sparse, empty base name, truncated, byte-corrupted); all bursts of length 0..6 (quick) / 0..8 (thorough) over {-1,0,1,NaN,+inf} through Midpointer and Wpcr; packets of length 0..8 through VecToStream. The thorough tier repeats the workload in an AddressSanitizer build. In child processes (an allocation failure aborts and cannot be caught): 2^24+1000 samples without a transition followed by a few transitions through SymbolSync (with and without clock output) and ZeroCrossing, and a one-million-sample burst with two transitions through Wpcr and Midpointer, under a 6 GiB address-space cap.",
-    "A worker killed by SIGSEGV/SIGABRT/SIGBUS is reported as a violation by the driver; time-outs and other exits are inconclusive. IL2P and the descrambler are fed {0,1} only (they document/assert bit input).",
+    "Every call runs inside catch_unwind and an Again without any stream event is re-called 64 times (spin); every worker installs a log sink that formats each record (Info on even shards, Trace on odd ones), so the arguments of the library's log statements are evaluated as they are in any program with a logger. Inputs: Il2pDeframer with arbitrary bytes behind sync tags; all 42 catalogue blocks under drip-feed schedules with floats that mix NaN, +-inf, denormals, huge values and random bit patterns; HdlcDeframer (min/max incl. 0,1,2; checksum and fix-bits on/off), RtlSdrDecode and AuDecode with arbitrary bytes; StreamToPdu with arbitrary tag sequences (starts/ends in any order, duplicates, wrong value types); exhaustive AU header mutations (47 data offsets incl. 0..40, 2^31, 2^32-1 x 7 encodings x 4 rates x 4 channel counts, truncations 0..28, one-shot and chunked); SigMF recordings with hostile metadata (type confusion, missing keys, huge/negative numbers, non-JSON) and archives (wrong entry types, duplicate members, non-UTF-8 names, sparse, empty base name, truncated, byte-corrupted); all bursts of length 0..6 (quick) / 0..8 (thorough) over {-1,0,1,NaN,+inf} through Midpointer and Wpcr; packets of length 0..8 through VecToStream. The thorough tier repeats the workload in an AddressSanitizer build. In child processes (an allocation failure aborts and cannot be caught): 2^24+1000 samples without a transition followed by a few transitions through SymbolSync (with and without clock output) and ZeroCrossing, and a one-million-sample burst with two transitions through Wpcr and Midpointer, under a 6 GiB address-space cap.",
+    "A worker killed by SIGSEGV/SIGABRT/SIGBUS is reported as a violation by the driver; time-outs and other exits are inconclusive. The descrambler is fed {0,1} only (it documents bit input); Il2pDeframer gets arbitrary bytes as well.",
     "runtime monitoring: catch_unwind/spin oracle over structure-aware and exhaustive small inputs, AddressSanitizer build", "3/C15", "robustness")
 add("C17", "fault_enumeration",
     "Open modes: all 30 combinations of {Create, Overwrite, Append} x {absent, empty, non-empty, directory, unwritable} x {FileSink, NoCopyFileSink}, each executed in a child process running as uid 65534 (root ignores mode bits), compared with the documented table (open succeeds/fails; resulting content new / old+new / unchanged). Crash points: a re-executed child streams unique samples (FileSink<u32>) or records (NoCopyFileSink<String>) through a one-page stream from a feeder thread while its main thread loops work() and, after every return, reports the cumulative count consumed by returned calls (from hook events) with one write(2) to a pipe; the parent sends SIGKILL after a seeded number of reports plus a seeded delay (96 kills quick, 3200 thorough), then reads the last complete report and the file: the file must be a prefix of the serialised stream and hold at least the acknowledged count. Failing and slow devices: a sink on /dev/full (every write fails with ENOSPC) must return without having consumed anything, a sink whose write the kernel cuts short (file size limit reached inside the write, SIGXFSZ ignored) must not have consumed more than the file holds, two sinks appending alternately to one file must leave every piece in call order, and a sink on a FIFO that accepts one pipe buffer and then stalls must not, while its work() call is blocked, have consumed more input than the device accepted (consumption is watched from the upstream side of the stream by a second thread).",
     "In the SIGKILL runs acknowledgement is taken when work() returns. The device scenarios look inside the call: consume() is what upstream sees as the acknowledgement, and a sink that consumes before its write has finished fails the unambiguous half as well (write error returned with samples consumed and in no file). Page-cache durability only.",
     "runtime monitoring with fault injection: SIGKILL at seeded points of a child process, prefix/acknowledgement oracle on the file", "3/C17", "filesink")
 add("C18", "fault_enumeration",
-    "Random create/drop histories of up to 200 live streams (u8, u32, [u8;16] buffers and stream pairs of 1,2,3,8 pages) over 1-8 threads; streams are dropped normally or (one drop in six) by a contained panic that unwinds through their owner, and one step in eight is a creation that must be refused (size not a page multiple) while the other threads create and drop; at every quiescent point the number of deleted-tmpfile mappings in /proc/self/maps and of entries in /proc/self/fd must equal the baseline. Aliasing through the hook accessor verif_raw(): for every page the first byte, the last byte and 62 random offsets are written at base+i and read at base+size+i and vice versa. Refused creations (sizes that are not page multiples; element sizes 3, 12 and 0) must return Err without panic and leave no mapping or descriptor, and a stream created afterwards passes a C01 history. Mapping failures are injected in a re-executed child: RLIMIT_AS (first mmap fails) and an LD_PRELOAD shim (first mmap ENOMEM, second mmap ENOMEM, second mmap placed at a different address): Buffer::new must return Err, nothing left behind, later streams healthy.",
+    "Random create/drop histories of up to 200 live streams (u8, u32, [u8;16] buffers and stream pairs of 1,2,3,8 pages) over 1-8 threads; one stream in forty is 1, 2 or about 4 MiB large; streams are dropped normally or (one drop in six) by a contained panic that unwinds through their owner, and one step in eight is a creation that must be refused (size not a page multiple) while the other threads create and drop; at every quiescent point the number of deleted-tmpfile mappings in /proc/self/maps and of entries in /proc/self/fd must equal the baseline. Aliasing through the hook accessor verif_raw(): for every page the first byte, the last byte and 62 random offsets are written at base+i and read at base+size+i and vice versa. Refused creations (sizes that are not page multiples; element sizes 3, 12 and 0) must return Err without panic and leave no mapping or descriptor, and a stream created afterwards passes a C01 history. Mapping failures are injected in a re-executed child: RLIMIT_AS (first mmap fails) and an LD_PRELOAD shim (first mmap ENOMEM, second mmap ENOMEM, second mmap placed at a different address): Buffer::new must return Err, nothing left behind, later streams healthy.",
     "Mapping failures are the four enumerated kinds; leak detection is process-wide, so histories run one at a time per worker. munmap failure (which the code turns into a panic) is not injected.",
     "runtime monitoring with fault injection: /proc mapping and descriptor accounting, LD_PRELOAD mmap failures, RLIMIT_AS", "3/C18", "mappings")
 add("C12", "exploration",
-    "Inputs carry uniquely keyed tags (0-5 per sample, clustered at likely split points); under drip-feed schedules the multiset (key, value, absolute output index) seen at the output must equal the expected mapping: identity for one-to-one blocks (first input only for multi-input blocks), both outputs of Tee, +delay for Delay, index/decimation for FirFilter, minus skip for Skip, identity for Hilbert/FftFilter/FftFilterFloat; added tags of VectorSource, CorrelateAccessCodeTag, BurstTagger, VecToStream on exactly the specified samples. Inputs also carry twin tags (same key and value twice on one sample or on neighbours): tags are a multiset.",
+    "Inputs carry uniquely keyed tags (0-5 per sample, clustered at likely split points); under drip-feed schedules the multiset (key, value, absolute output index) seen at the output must equal the expected mapping: identity for one-to-one blocks (first input only for multi-input blocks), both outputs of Tee, +delay for Delay, index/decimation for FirFilter, minus skip for Skip, identity for Hilbert/FftFilter/FftFilterFloat; added tags of VectorSource, CorrelateAccessCodeTag, BurstTagger, VecToStream on exactly the specified samples. Inputs also carry twin tags (same key and value twice on one sample or on neighbours): tags are a multiset. Delay::set_delay scenarios (1-3 changes before the first call or at a quiescent point) with every k-th sample (k in 1,2,7,50) tagged with its own unique value: each tag exactly once, at the absolute index the specification gives its sample, none missing for a sample the specification lets through.",
     "Blocks documented as dropping tags (RationalResampler, RtlSdrDecode, AU codec, ...) are not judged. Tags on samples that never reach the output (FIR history tail) are expected to be absent.",
     "runtime monitoring: exactly-once oracle over uniquely tagged inputs", "3/C12", "drip-feed")
 
